@@ -381,6 +381,14 @@ pub fn drive(tier: &str) -> i32 {
         "statement templates inside 8 containers (SUB / FUNCTION / STATIC SUB bodies, single-line IF, IF in FOR, CASE, ELSE in WHILE, SUB with shared declarations)".into(),
         vcore::slots::instantiate_in_containers(if quick { &[] } else { &[0, 3] }),
     ));
+    groups.push((
+        "statement templates cut after every token and with every single token deleted".into(),
+        vcore::slots::edited_templates().into_iter().map(|s| vcore::slots::program(&s)).collect(),
+    ));
+    groups.push((
+        "long tokens: identifiers of 39 .. 1000 characters in 10 roles, numbers of 5 .. 5000 digits in every notation and 9 places, lists of 10 .. 1000 items, very long lines, 66 000 lines".into(),
+        vcore::slots::long_token_programs(),
+    ));
     groups.push(("harvested texts as they are".into(), corpus.iter().map(|(_, t)| t.clone()).collect()));
 
     // seeds for edits: accepted programs; quick = first program per source file + fixtures.
